@@ -199,18 +199,34 @@ Fixpoint all2 {A} (f : A -> A -> bool) (a b : list A) : bool :=
   | _, _ => false
   end.
 
+(* scale-aware comparison: |a - b| <= 1e-9 * (|b| + s), where s is the magnitude of the
+   quantity's component in this grid (largest |node coordinate| of that axis for positions,
+   largest |model value| of that component for normals, 0 = purely relative for areas and
+   volumes), so that grids of any size and anisotropy are compared at their own scale *)
+Definition maxabs (l : list Q) : Q :=
+  fold_right (fun x m => if Qlt_le_dec m (Qabs x) then Qred (Qabs x) else m) 0 l.
+Definition closeS (s a b : Q) : bool :=
+  Qle_bool (Qabs (a - b)) ((1 # 1000000000) * (Qabs b + s)).
+Definition closepS (sx sy : Q) (a b : pt) : bool :=
+  closeS sx (px a) (px b) && closeS sy (py a) (py b).
+
 (* impl: None = the implementation fell back to the convex legacy branch *)
 Definition agree2 (g : grid2) (impl : option geom2) : bool :=
   match geometry2 g, impl with
   | GFallback, None => true
   | GOk r, Some i =>
-      all2 close (map Qred (o_area2 r)) (o_area2 i) && all2 closep (o_fc r) (o_fc i)
-      && all2 closep (o_fn r) (o_fn i) && all2 close (map Qred (o_vol r)) (o_vol i)
-      && all2 closep (o_cc r) (o_cc i)
+      let nx := maxabs (map px (g_nodes g)) in
+      let ny := maxabs (map py (g_nodes g)) in
+      all2 (closeS 0) (map Qred (o_area2 r)) (o_area2 i)
+      && all2 (closepS nx ny) (o_fc r) (o_fc i)
+      && all2 (closepS (maxabs (map px (o_fn r))) (maxabs (map py (o_fn r)))) (o_fn r) (o_fn i)
+      && all2 (closeS 0) (map Qred (o_vol r)) (o_vol i)
+      && all2 (closepS nx ny) (o_cc r) (o_cc i)
   | _, _ => false
   end.
 
 Definition agree1 (h : grid1) (i : geom1) : bool :=
   let r := geometry1 h in
-  all2 close (p_fc r) (p_fc i) && all2 close (p_fn r) (p_fn i)
-  && all2 close (p_vol r) (p_vol i) && all2 close (p_cc r) (p_cc i).
+  let nx := maxabs (h_nodes h) in
+  all2 (closeS nx) (p_fc r) (p_fc i) && all2 (closeS 0) (p_fn r) (p_fn i)
+  && all2 (closeS 0) (p_vol r) (p_vol i) && all2 (closeS nx) (p_cc r) (p_cc i).
